@@ -190,7 +190,7 @@ def make_blocks(nb, with_F=True, with_M=True, graft=None, tag=""):
     return bl
 
 
-def run_group_step(h, blocks, alias=False, graft_obj=None, fake=None):
+def run_group_step(h, blocks, alias=False, graft_obj=None, fake=None, graft_log=None):
     """Calls the real _per_group_step_impl.  Returns (stub, grafting list object)."""
     ds, pl, dd = modules()
     from distributed_shampoo import shampoo_types as st
@@ -212,6 +212,15 @@ def run_group_step(h, blocks, alias=False, graft_obj=None, fake=None):
         # object invariant of AdagradPreconditionerList: the correction stays 1.0 unless (flag and beta2 < 1)
         assume(z3.Implies(z3.Not(z3.And(h["bias_g"].t, h["beta2g"].t < 1)), z3.Real("bc2g_prev") == 1))
         assume(z3.Real("bc2g_prev") > 0)
+    if graft is not None and graft_log is not None:
+        real_precondition = graft.precondition
+
+        def logged_precondition(masked_grad_list):
+            r = real_precondition(masked_grad_list=masked_grad_list)
+            graft_log.append([t.v for t in r])
+            return r
+
+        graft.precondition = logged_precondition
     state_lists = {
         st.DISTRIBUTOR: dist,
         st.MASKED_BLOCKED_GRADS: tuple(b["g"] for b in blocks),
